@@ -185,7 +185,12 @@ fn any_damage(rng: &mut u64, image: &Image, frames: &[crate::iotrace::FrameInfo]
         }
         12 => {
             let stray_names = ["wal-0000000000000000001", "wal-000000000000000000001", "WAL-00000000000000000001", "notes.txt", ".lock", "wal-0000000000000000000a", "wal-"];
-            Some(CDamage::Stray { name: stray_names[(splitmix(rng) % stray_names.len() as u64) as usize].to_string(), len: (splitmix(rng) % 70_000) as u32, seed: splitmix(rng) })
+            let name = if splitmix(rng) % 3 == 0 {
+                crate::damage::multibyte_wal_like_name((splitmix(rng) % 23) as usize, splitmix(rng) % 3)
+            } else {
+                stray_names[(splitmix(rng) % stray_names.len() as u64) as usize].to_string()
+            };
+            Some(CDamage::Stray { name, len: (splitmix(rng) % 70_000) as u32, seed: splitmix(rng) })
         }
         13 => {
             let name = match splitmix(rng) % 3 {
